@@ -161,4 +161,7 @@ type ReplayResult struct {
 	Ran       bool   `json:"ran"`
 	Output    string `json:"output"`
 	Test      string `json:"test,omitempty"`
+	PkgDir    string `json:"pkg_dir,omitempty"`
+	Expect    string `json:"expect,omitempty"`
+	NoSafety  bool   `json:"no_safety,omitempty"`
 }
